@@ -136,6 +136,7 @@ type GenParams struct {
 	RecreatePct                                                                                   int  // after a drop of an existing index: percentage of cases in which the same name is created again at once and written to
 	SnapEmptyPct                                                                                  int  // after a successful create: percentage of cases in which a snapshot (or a log compaction) is taken while the index is still empty
 	NullMeta                                                                                      bool // metadata may carry a key whose value is JSON null (a key the record keeps, with no value)
+	ReplacePct                                                                                    int  // after a delete: percentage of cases in which the same id is added again at once with a new vector and new metadata
 }
 
 // shadow state kept by the generator only to bias towards valid / interesting ops
@@ -648,6 +649,14 @@ func GenHistory(p GenParams) *rapid.Generator[[]Op] {
 						ops = append(ops, Op{K: KAdd, Idx: op.Idx, ID: id, Vec: genVec(t, cfg.Dim), Meta: genMeta(t, p, cfg)})
 						si.live[id] = true
 					}
+				}
+			}
+			// replace: delete + add of the same id with a new vector and new metadata is how an item is updated
+			if op.K == KDel && op.Why == "" && p.ReplacePct > 0 {
+				if si := sh.idx[op.Idx]; si != nil && si.dead[op.ID] && rapid.IntRange(0, 99).Draw(t, "replace") < p.ReplacePct {
+					ops = append(ops, Op{K: KAdd, Idx: op.Idx, ID: op.ID, Vec: genVec(t, si.cfg.Dim), Meta: genMeta(t, p, &si.cfg), Why: "replace"})
+					si.live[op.ID] = true
+					delete(si.dead, op.ID)
 				}
 			}
 			// warm-up: a batch takes the parallel insert path only when the index has already handed out at
